@@ -1,0 +1,63 @@
+//go:build verif
+
+package queue
+
+import "sync/atomic"
+
+// VerifMsg is the verification view of a queued message.
+type VerifMsg struct {
+	ID            uint64 `json:"id"`
+	Body          string `json:"body"`
+	DeliveryCount uint32 `json:"dc"`
+	Persistent    bool   `json:"pers"`
+}
+
+// VerifQueueSnap is the verification snapshot of a queue.
+type VerifQueueSnap struct {
+	Name        string     `json:"name"`
+	Ready       []VerifMsg `json:"ready"`
+	Length      int64      `json:"length"`
+	RingLength  uint64     `json:"ringLength"`
+	Consumers   []string   `json:"consumers"`
+	RR          int        `json:"rr"`
+	CallToken   bool       `json:"callToken"`
+	LoadToken   bool       `json:"loadToken"`
+	Active      bool       `json:"active"`
+	Exclusive   bool       `json:"exclusive"`
+	AutoDelete  bool       `json:"autoDelete"`
+	Durable     bool       `json:"durable"`
+	ConnID      uint64     `json:"connID"`
+	ConsumeExcl bool       `json:"consumeExcl"`
+	WasConsumed bool       `json:"wasConsumed"`
+	Swapped     bool       `json:"swapped"`
+	MReady      int64      `json:"mReady"`
+	MUnacked    int64      `json:"mUnacked"`
+	MTotal      int64      `json:"mTotal"`
+}
+
+// VerifSnap returns the verification snapshot of a queue.
+func (queue *Queue) VerifSnap() VerifQueueSnap {
+	s := VerifQueueSnap{Name: queue.name, Length: atomic.LoadInt64(&queue.queueLength), RingLength: queue.SafeQueue.Length(),
+		RR: queue.currentConsumer, CallToken: len(queue.call) > 0, LoadToken: len(queue.maybeLoadFromStorageCh) > 0,
+		Active: queue.active, Exclusive: queue.exclusive, AutoDelete: queue.autoDelete, Durable: queue.durable,
+		ConnID: queue.connID, ConsumeExcl: queue.consumeExcl, WasConsumed: queue.wasConsumed, Swapped: queue.swappedToDisk,
+		MReady: queue.metrics.Ready.Counter.Count(), MUnacked: queue.metrics.Unacked.Counter.Count(), MTotal: queue.metrics.Total.Counter.Count()}
+	for _, m := range queue.SafeQueue.VerifItems() {
+		vm := VerifMsg{ID: m.ID, DeliveryCount: m.DeliveryCount}
+		if m.Header != nil && m.Header.PropertyList != nil {
+			vm.Persistent = m.IsPersistent()
+		}
+		for _, f := range m.Body {
+			if len(vm.Body) < 64 {
+				vm.Body += string(f.Payload)
+			}
+		}
+		s.Ready = append(s.Ready, vm)
+	}
+	queue.cmrLock.RLock()
+	for _, c := range queue.consumers {
+		s.Consumers = append(s.Consumers, c.Tag())
+	}
+	queue.cmrLock.RUnlock()
+	return s
+}
